@@ -103,10 +103,17 @@ func main() {
 				var it hz.Item
 				if jerr := json.Unmarshal(req.Item, &it); jerr != nil {
 					resp.Error = "bad item: " + jerr.Error()
-				} else if ctx, serr := setup(&it); serr != nil {
-					resp.Error = serr.Error()
 				} else {
+					// A fresh context per case: every symbolic path starts from the state right after Setup (the
+					// executor undoes the writes of the previous path), so a replay must not inherit the pooled
+					// search states, DFA caches or mode flags warmed up by the case before it. (A first-call-only
+					// defect was seen symbolically but "unconfirmed" natively while one context served all cases.)
 					for _, c := range req.Cases {
+						ctx, serr := setup(&it)
+						if serr != nil {
+							resp.Error = serr.Error()
+							break
+						}
 						resp.Results = append(resp.Results, runCase(ctx, &it, c.M))
 					}
 				}
